@@ -42,8 +42,17 @@ def prior_activity(n):
         w = World(p)
         sim = w.build()
         sim.run()
+    # an unrelated model built from library components (stochastic source, server, sketches)
     try:
-        from happysimulator.components.messaging.message_queue import MessageQueue  # noqa: F401
+        from harness import scenarios
+        random.seed(4711)
+        try:
+            import numpy as np
+            np.random.seed(4711)
+        except Exception:
+            pass
+        scenarios.poisson_queue(rate=17, seed_offset=1)
+        scenarios.cms_str()
     except Exception:
         pass
     # consume global randomness the way an unrelated model would
